@@ -343,16 +343,19 @@ def fork_executor():
             status = 0
             try:
                 os.close(r)
+                from depsim import cemu
+                mark = len(cemu.trace)
                 func, args, kwds = pickle.loads(payload)
                 units = len(args[0]) if args and isinstance(args[0], list) else 1
                 try:
                     value = func(*args, **kwds)
-                    out = pickle.dumps((True, pickle.dumps(value), units))
+                    out = (True, pickle.dumps(value), units)
                 except Exception as e:  # noqa
                     try:
-                        out = pickle.dumps((False, pickle.dumps(e), units))
+                        out = (False, pickle.dumps(e), units)
                     except Exception:
-                        out = pickle.dumps((False, pickle.dumps(RuntimeError(repr(e))), units))
+                        out = (False, pickle.dumps(RuntimeError(repr(e))), units)
+                out = pickle.dumps(out + (cemu.trace[mark:], list(cemu._unraisable), list(cemu._ub)))
                 with os.fdopen(w, 'wb') as f:
                     f.write(out)
             except BaseException:
@@ -365,5 +368,10 @@ def fork_executor():
         _, status = os.waitpid(pid, 0)
         if status != 0 or not data:
             raise WorkerCrash(f'forked worker for task {index} died (status {status})')
-        return pickle.loads(data)
+        ok, payload_out, units, trace, unraisable, ub = pickle.loads(data)
+        from depsim import cemu
+        cemu.trace.extend(trace)       # the child's observations (pop counts, cache sizes) come home with the result
+        cemu._unraisable.extend(unraisable)
+        cemu._ub.extend(ub)
+        return ok, payload_out, units
     return execute
